@@ -61,10 +61,6 @@ PropDecode(st, e, n) ==
           ((n.out.kind = "ok") <=> wf) /\ (wf => n.mem.val = Msg_ValueOf(e.ty, r.v.x)))
   ELSE TRUE
 (* fixed point (C07): decoding what the crate's own encoder wrote gives the same value; encoding that gives the same bytes *)
-PropFixedPoint(e, n) ==
-  \/ ~fp.on \/ fp.f7
-  \/ e.ev = "decode" /\ fp.val # <<>> /\ fp.bytes # <<>> => (n.out.kind = "ok" /\ n.mem.val = fp.val[1])
-  \/ FALSE
 PropFixedPointEnc(e, n) ==
   ~fp.on \/ fp.f7 \/ fp.bytes = <<>> \/ (n.out.kind = "ok" /\ n.out.bytes = fp.bytes)
 
